@@ -1,10 +1,11 @@
+import os
 subs=[("idle","stepIdle",True),("begin","stepBegin",False),("commit","stepCommit",False),("abort","stepAbort",False),("after","stepAfter",True),("use","stepUse",False),("sess","stepSess",False),("close","stepClose",False),("exp","stepExp",False)]
 pcname={"idle":".idle","after":".after"}
 head='''/-
   Lungo.Proofs.ConcOwn2 — the `starting` protocol invariant (Sinv) and the ownership invariant
   (Oinv), per sub-machine (generated mechanically).
 -/
-import Lungo.Proofs.ConcOwn
+import Lungo.Proofs.ConcOwnDefs
 namespace Lungo.Conc
 '''
 def thm(field, name, fn, haspc, hyps, goal, body):
@@ -39,4 +40,4 @@ for name,fn,haspc in subs:
     · have := s3 sid; goal_simp; grind)'''
     out+=thm("sinv",name,fn,haspc,"(inv1 : Inv1 s) (g1 : Sinv s)","Sinv s'",body)
 out+="\nend Lungo.Conc\n"
-open('/root/wt/a4/lean/Lungo/Proofs/ConcOwn2.lean','w').write(out)
+open(os.path.join(os.path.dirname(os.path.abspath(__file__)),'..','Lungo','Proofs')+'/ConcOwn2.lean','w').write(out)
